@@ -114,9 +114,11 @@ def check(ctx: Ctx) -> None:
         ctx.instance('C01.b', construct)
         par = [x for x in o.params if x != 'self'][0]
         rt = set()
+        from ..astutil import expander as _expander
+        _ex = _expander(o)
         for n in walk_no_nested(o.node):
             if isinstance(n, ast.If) and n.body and isinstance(n.body[-1], ast.Raise) and \
-                    any(isinstance(x, ast.Name) and x.id == par for x in ast.walk(n.test)):
+                    any(isinstance(x, ast.Name) and x.id == par for x in ast.walk(_ex(n.test))):     # named masks are looked through
                 r = n.body[-1]
                 if r.exc is not None and norm(r.exc.func if isinstance(r.exc, ast.Call) else r.exc) == 'ValueError':
                     rt.add(id(n.test))
